@@ -277,10 +277,30 @@ func c15xy(c *fw.Ctx, idx int) {
 		prev = ev
 	}
 	c.SetInput(map[string]any{"dim": 2, "point": fw.Fs(p[:]), "linestring": fw.Fs(flat), "stride": stride})
+	// the line is handed over as a window into a longer array (a prefix of a
+	// caller's coordinate buffer): what lies behind it must be left alone
+	backing := make([]float64, len(flat), len(flat)+3*stride)
+	copy(backing, flat)
+	tail := backing[len(flat):cap(backing)]
+	for i := range tail {
+		tail[i] = -7.25e300
+	}
+	window := backing[:len(flat)]
 	var got float64
-	if c.Guard("panic", func() { got = xy.DistanceFromPointToLineString(layout, co(p), flat) }) {
+	if c.Guard("panic", func() { got = xy.DistanceFromPointToLineString(layout, co(p), window) }) {
 		return
 	}
+	for i, v := range backing[:cap(backing)] {
+		want := -7.25e300
+		if i < len(flat) {
+			want = flat[i]
+		}
+		if math.Float64bits(v) != math.Float64bits(want) {
+			c.Fail("input-modified", "DistanceFromPointToLineString wrote into the caller's array at offset %d (the line has %d values, the array %d)", i, len(flat), cap(backing))
+			return
+		}
+	}
+	c.Count("linestring_passed_as_window_into_longer_array")
 	c15Judge(c, "xy.DistanceFromPointToLineString", got, best, c15Tol(lv...))
 }
 
